@@ -167,14 +167,14 @@ def main():
             print(f"VIOLATION property={prop} replay={v['replay']}")
             print(f"  obligation={v['obligation']} key={v['key']} {v.get('what','')}")
         code = 1
-    elif errors or inconclusive or unreproduced:
+    if errors or inconclusive or unreproduced:
         for t, e in errors:
             print(f"HARNESS-ERROR property={prop} task={t}\n{e}")
         for x in inconclusive:
             print(f"INCONCLUSIVE property={prop} {x}")
         for x in unreproduced:
             print(f"UNREPRODUCED property={prop} {x}")
-        code = 2
+        code = code or 2
     print(
         f"{prop} tier={tier}: tasks={len(results)} paths={n_paths} obligations={obligations} discharged={discharged} "
         f"violations={len(violations)} known={len(known_hits)} inconclusive={len(inconclusive)} wall={wall:.1f}s -> exit {code}"
